@@ -1,6 +1,8 @@
 import OmplModel.Proofs.DubinsAF
 import OmplModel.Proofs.DubinsReal
 import OmplModel.Proofs.DubinsInteg
+import OmplModel.Proofs.DubinsWords
+import OmplModel.Proofs.DubinsReach
 /-!
 # C14 — Dubins curves: the reported path is a shortest candidate, reaches the goal, and `interpolate` drives it
 
@@ -24,6 +26,17 @@ What is proved
   (`integrate_segment_fwd`, `integrate_segment_rev`, `segment_concat`).
 * [EX] chord ≤ arc, hence a word that reaches `(d,0)` is at least `d` long
   (`segment_chord_le_arc`, `length_ge_chord`, `distance_ge_straight_line_of_reaches`).
+* [EX] the fudge-free normalisation is exact with range `[0, 2π)`; the code's `mod2pi` is non-negative
+  and within `ε/2` of an exact representative (`mod2piExact_spec`, `mod2pi_nonneg`, `mod2pi_fudge_bound`).
+* [EX] **each of the six solvers reaches the goal**: for every `m2p` that is exact modulo 2π, the
+  returned `(t,p,q)`, driven by the model's own integration from `(0,0,α)`, ends at `(d,0)` with heading
+  `β + 2πk` — the exact form of the `assert`s in `dubinsLSL … dubinsLRL` (`word_LSL_reaches`,
+  `word_RSR_reaches`, `word_RSL_reaches`, `word_LSR_reaches`, `word_RLR_reaches`, `word_LRL_reaches`,
+  uniformly `solve_reaches`, for the search `exhaustive_reaches`, for `interpolate` `interp_at_one_reaches`).
+* [EX] the `reverse_` branch of `interpolate` (reversed word, `stepRev`) retraces the forward curve back to
+  its start (`reverse_retraces`); over ℝ the exhaustive search always returns a path (`exhaustive_isSome`).
+* [EX] segment lengths are non-negative and the reported length is at least the straight-line distance
+  (`word_lengths_nonneg`, `reported_length_ge_straight_line`, `exhaustive_length_ge_straight_line`).
 
 What is NOT proved
 * optimality of the six-word set (Dubins' theorem): `exhaustive_is_min` is minimality among the six
@@ -243,5 +256,231 @@ theorem distance_ge_straight_line_of_reaches (P : Path ℝ) (ht : 0 ≤ P.t) (hp
 example : (integFull stepFwd (Path.segList (⟨.LSL, 0, 3, 0, false⟩ : Path ℝ)) ⟨0, 0, 0⟩).x = 3 ∧
     (integFull stepFwd (Path.segList (⟨.LSL, 0, 3, 0, false⟩ : Path ℝ)) ⟨0, 0, 0⟩).y = 0 := by
   simp [Path.segList, Word.segs, integFull, stepFwd]
+
+/-! ## Group 3 [EX]: angle normalisation -/
+
+/-- [EX] the fudge-free normalisation changes its argument by an exact multiple of 2π and lands in
+`[0, 2π)`. -/
+theorem mod2piExact_spec : Exact mod2piExact ∧ ∀ x : ℝ, 0 ≤ mod2piExact x ∧ mod2piExact x < 2 * Real.pi :=
+  ⟨mod2piExact_exact, fun x => ⟨mod2piExact_nonneg x, mod2piExact_lt x⟩⟩
+
+example : mod2piExact (0 : ℝ) = 0 := by rw [mod2piExact_eq]; simp
+
+/-- [EX] the code's `mod2pi` (fudges included) never returns a negative angle. -/
+theorem mod2pi_nonneg (x : ℝ) : 0 ≤ mod2pi x := Dubins.mod2pi_nonneg x
+
+/-- [EX] what the two fudges of the code's `mod2pi` change: the result is within `DUBINS_EPS / 2` of an
+exact representative of `x` modulo 2π (so `mod2pi` is *not* `Exact`, which is why the reach theorems
+quantify over exact normalisations). -/
+theorem mod2pi_fudge_bound (x : ℝ) :
+    ∃ k : ℤ, |mod2pi x - (x + k * (2 * Real.pi))| ≤ (eps : ℝ) / 2 := Dubins.mod2pi_fudge_bound x
+
+-- the first fudge really fires: a tiny negative angle is sent to 0, not to just under 2π
+example : mod2pi (-(1 / 10 ^ 8) : ℝ) = 0 := by
+  rw [mod2pi_eq, if_pos (by constructor <;> norm_num)]
+
+/-! ## Group 3 [EX]: every solver reaches the goal -/
+
+/-- [EX] **LSL reaches the goal.**  For every normalisation that is exact modulo 2π: the returned path is
+the word L·S·L and, driven from `(0,0,α)`, ends at `x = d`, `y = 0`, heading `β + 2πk`
+(the three `assert`s of `dubinsLSL`, exactly). -/
+theorem word_LSL_reaches (m2p : ℝ → ℝ) (hm : Exact m2p) (d α β : ℝ) (P : Path ℝ)
+    (h : dubinsLSL m2p d α β = some P) :
+    P.w = .LSL ∧ P.rev = false ∧
+    (integFull stepFwd P.segList ⟨0, 0, α⟩).x = d ∧
+    (integFull stepFwd P.segList ⟨0, 0, α⟩).y = 0 ∧
+    ∃ k : ℤ, (integFull stepFwd P.segList ⟨0, 0, α⟩).th = β + k * (2 * Real.pi) :=
+  Dubins.word_LSL_reaches m2p hm d α β P h
+
+-- LSL always has a solution over ℝ (its `tmp` is a sum of two squares), so the premise is satisfiable
+example (m2p : ℝ → ℝ) : ∃ P, dubinsLSL m2p 4 0 0 = some P := by
+  unfold dubinsLSL
+  simp only [DubinsR.cos_eq, DubinsR.sin_eq, DubinsR.ofNat_two, DubinsR.dzero_eq, Real.cos_zero, Real.sin_zero]
+  rw [if_pos (by norm_num)]
+  exact ⟨_, rfl⟩
+
+/-- [EX] **RSR reaches the goal** (the three `assert`s of `dubinsRSR`, exactly). -/
+theorem word_RSR_reaches (m2p : ℝ → ℝ) (hm : Exact m2p) (d α β : ℝ) (P : Path ℝ)
+    (h : dubinsRSR m2p d α β = some P) :
+    P.w = .RSR ∧ P.rev = false ∧
+    (integFull stepFwd P.segList ⟨0, 0, α⟩).x = d ∧
+    (integFull stepFwd P.segList ⟨0, 0, α⟩).y = 0 ∧
+    ∃ k : ℤ, (integFull stepFwd P.segList ⟨0, 0, α⟩).th = β + k * (2 * Real.pi) :=
+  Dubins.word_RSR_reaches m2p hm d α β P h
+
+example (m2p : ℝ → ℝ) : ∃ P, dubinsRSR m2p 4 0 0 = some P := by
+  unfold dubinsRSR
+  simp only [DubinsR.cos_eq, DubinsR.sin_eq, DubinsR.ofNat_two, DubinsR.dzero_eq, Real.cos_zero, Real.sin_zero]
+  rw [if_pos (by norm_num)]
+  exact ⟨_, rfl⟩
+
+/-- [EX] **RSL reaches the goal** when the code's `tmp` is non-negative.  (For
+`tmp ∈ [DUBINS_ZERO, 0)` the code clamps `p = sqrt(max(tmp,0))` to 0 and the identities hold only
+approximately; that band is excluded here.) -/
+theorem word_RSL_reaches (m2p : ℝ → ℝ) (hm : Exact m2p) (d α β : ℝ) (P : Path ℝ)
+    (hnn : 0 ≤ d * d - 2 + 2 * (Real.cos α * Real.cos β + Real.sin α * Real.sin β - d * (Real.sin α + Real.sin β)))
+    (h : dubinsRSL m2p d α β = some P) :
+    P.w = .RSL ∧ P.rev = false ∧
+    (integFull stepFwd P.segList ⟨0, 0, α⟩).x = d ∧
+    (integFull stepFwd P.segList ⟨0, 0, α⟩).y = 0 ∧
+    ∃ k : ℤ, (integFull stepFwd P.segList ⟨0, 0, α⟩).th = β + k * (2 * Real.pi) :=
+  Dubins.word_RSL_reaches m2p hm d α β P hnn h
+
+example (m2p : ℝ → ℝ) : (∃ P, dubinsRSL m2p 4 0 0 = some P) ∧
+    (0 : ℝ) ≤ 4 * 4 - 2 + 2 * (Real.cos 0 * Real.cos 0 + Real.sin 0 * Real.sin 0 - 4 * (Real.sin 0 + Real.sin 0)) := by
+  constructor
+  · unfold dubinsRSL
+    simp only [DubinsR.cos_eq, DubinsR.sin_eq, DubinsR.ofNat_two, DubinsR.dzero_eq, Real.cos_zero, Real.sin_zero]
+    rw [if_pos (by norm_num)]
+    exact ⟨_, rfl⟩
+  · simp only [Real.cos_zero, Real.sin_zero]; norm_num
+
+/-- [EX] **LSR reaches the goal** when the code's `tmp` is non-negative (same exclusion as RSL). -/
+theorem word_LSR_reaches (m2p : ℝ → ℝ) (hm : Exact m2p) (d α β : ℝ) (P : Path ℝ)
+    (hnn : 0 ≤ -2 + d * d + 2 * (Real.cos α * Real.cos β + Real.sin α * Real.sin β + d * (Real.sin α + Real.sin β)))
+    (h : dubinsLSR m2p d α β = some P) :
+    P.w = .LSR ∧ P.rev = false ∧
+    (integFull stepFwd P.segList ⟨0, 0, α⟩).x = d ∧
+    (integFull stepFwd P.segList ⟨0, 0, α⟩).y = 0 ∧
+    ∃ k : ℤ, (integFull stepFwd P.segList ⟨0, 0, α⟩).th = β + k * (2 * Real.pi) :=
+  Dubins.word_LSR_reaches m2p hm d α β P hnn h
+
+example (m2p : ℝ → ℝ) : (∃ P, dubinsLSR m2p 4 0 0 = some P) ∧
+    (0 : ℝ) ≤ -2 + 4 * 4 + 2 * (Real.cos 0 * Real.cos 0 + Real.sin 0 * Real.sin 0 + 4 * (Real.sin 0 + Real.sin 0)) := by
+  constructor
+  · unfold dubinsLSR
+    simp only [DubinsR.cos_eq, DubinsR.sin_eq, DubinsR.ofNat_two, DubinsR.dzero_eq, Real.cos_zero, Real.sin_zero]
+    rw [if_pos (by norm_num)]
+    exact ⟨_, rfl⟩
+  · simp only [Real.cos_zero, Real.sin_zero]; norm_num
+
+/-- [EX] **RLR reaches the goal** (whenever the solver returns a path, i.e. `|tmp| < 1`). -/
+theorem word_RLR_reaches (m2p : ℝ → ℝ) (hm : Exact m2p) (d α β : ℝ) (P : Path ℝ)
+    (h : dubinsRLR m2p d α β = some P) :
+    P.w = .RLR ∧ P.rev = false ∧
+    (integFull stepFwd P.segList ⟨0, 0, α⟩).x = d ∧
+    (integFull stepFwd P.segList ⟨0, 0, α⟩).y = 0 ∧
+    ∃ k : ℤ, (integFull stepFwd P.segList ⟨0, 0, α⟩).th = β + k * (2 * Real.pi) :=
+  Dubins.word_RLR_reaches m2p hm d α β P h
+
+-- d = 1, α = β = 0: tmp = 7/8, the CCC solvers do return a path
+example (m2p : ℝ → ℝ) : ∃ P, dubinsRLR m2p 1 0 0 = some P := by
+  unfold dubinsRLR
+  simp only [DubinsR.cos_eq, DubinsR.sin_eq, DubinsR.abs_eq, DubinsR.ofNat_two, DubinsR.ofNat_six,
+    DubinsR.ofNat_one, DubinsR.ofDec_125_3, Real.cos_zero, Real.sin_zero]
+  rw [if_pos (by rw [abs_lt]; constructor <;> norm_num)]
+  exact ⟨_, rfl⟩
+
+/-- [EX] **LRL reaches the goal** (whenever the solver returns a path). -/
+theorem word_LRL_reaches (m2p : ℝ → ℝ) (hm : Exact m2p) (d α β : ℝ) (P : Path ℝ)
+    (h : dubinsLRL m2p d α β = some P) :
+    P.w = .LRL ∧ P.rev = false ∧
+    (integFull stepFwd P.segList ⟨0, 0, α⟩).x = d ∧
+    (integFull stepFwd P.segList ⟨0, 0, α⟩).y = 0 ∧
+    ∃ k : ℤ, (integFull stepFwd P.segList ⟨0, 0, α⟩).th = β + k * (2 * Real.pi) :=
+  Dubins.word_LRL_reaches m2p hm d α β P h
+
+example (m2p : ℝ → ℝ) : ∃ P, dubinsLRL m2p 1 0 0 = some P := by
+  unfold dubinsLRL
+  simp only [DubinsR.cos_eq, DubinsR.sin_eq, DubinsR.abs_eq, DubinsR.ofNat_two, DubinsR.ofNat_six,
+    DubinsR.ofNat_one, DubinsR.ofDec_125_3, Real.cos_zero, Real.sin_zero]
+  rw [if_pos (by rw [abs_lt]; constructor <;> norm_num)]
+  exact ⟨_, rfl⟩
+
+/-- [EX] the six reach theorems as one statement about `solve`; `NoClamp w d α β` is `True` except for
+RSL/LSR, where it says the code's `tmp` is not in the clamp band `[DUBINS_ZERO, 0)`. -/
+theorem solve_reaches (m2p : ℝ → ℝ) (hm : Exact m2p) (w : Word) (d α β : ℝ) (P : Path ℝ)
+    (hb : NoClamp w d α β) (h : solve m2p w d α β = some P) :
+    P.w = w ∧ P.rev = false ∧
+    (integFull stepFwd P.segList ⟨0, 0, α⟩).x = d ∧
+    (integFull stepFwd P.segList ⟨0, 0, α⟩).y = 0 ∧
+    ∃ k : ℤ, (integFull stepFwd P.segList ⟨0, 0, α⟩).th = β + k * (2 * Real.pi) :=
+  Dubins.solve_reaches m2p hm w d α β P hb h
+
+example (d α β : ℝ) : NoClamp .LSL d α β ∧ NoClamp .RLR d α β := ⟨trivial, trivial⟩
+-- the clamp band is a genuine restriction (it is inhabited) and is only 1e-7 wide
+example : ClampBand (-(1 / 10 ^ 8)) ∧ ¬ ClampBand 0 ∧ ¬ ClampBand (-(1 / 10 ^ 6)) := by
+  refine ⟨⟨by norm_num, by norm_num⟩, fun h => ?_, fun h => ?_⟩
+  · exact lt_irrefl _ h.2
+  · have := h.1; norm_num at this
+
+/-- [EX] **Whatever the exhaustive search returns reaches the goal**, outside the two clamp bands. -/
+theorem exhaustive_reaches (m2p : ℝ → ℝ) (hm : Exact m2p) (d α β : ℝ) (P : Path ℝ)
+    (hb1 : ¬ ClampBand (tmpRSL d α β)) (hb2 : ¬ ClampBand (tmpLSR d α β))
+    (h : exhaustiveCore m2p d α β = some P) :
+    P.rev = false ∧
+    (integFull stepFwd P.segList ⟨0, 0, α⟩).x = d ∧
+    (integFull stepFwd P.segList ⟨0, 0, α⟩).y = 0 ∧
+    ∃ k : ℤ, (integFull stepFwd P.segList ⟨0, 0, α⟩).th = β + k * (2 * Real.pi) := by
+  obtain ⟨w, hw⟩ := exhaustiveCore_mem m2p d α β
+  rw [hw] at h
+  have hb : NoClamp w d α β := by cases w <;> first | exact hb1 | exact hb2 | trivial
+  exact (Dubins.solve_reaches m2p hm w d α β P hb h).2
+
+/-- [EX] **Segment lengths are non-negative**: if the normalisation returns non-negative angles (both
+`mod2pi` and `mod2piExact` do), every solver's `t`, `p`, `q` are `≥ 0` (`p` is a square root, or
+`2π - arccos ≥ π` for the CCC words). -/
+theorem word_lengths_nonneg (m2p : ℝ → ℝ) (hm : ∀ x, 0 ≤ m2p x) (w : Word) (d α β : ℝ) (P : Path ℝ)
+    (h : solve m2p w d α β = some P) : 0 ≤ P.t ∧ 0 ≤ P.p ∧ 0 ≤ P.q :=
+  Dubins.word_lengths_nonneg m2p hm w d α β P h
+
+example : (∀ x : ℝ, 0 ≤ mod2pi x) ∧ (∀ x : ℝ, 0 ≤ mod2piExact x) :=
+  ⟨Dubins.mod2pi_nonneg, mod2piExact_nonneg⟩
+
+/-- [EX] **Reported length ≥ straight-line distance**, per word: a path returned by any of the six
+solvers (exact, non-negative normalisation; outside the clamp band for RSL/LSR) has
+`d ≤ t + p + q`, and after scaling by the turning radius `rho·d ≤ rho·length`. -/
+theorem reported_length_ge_straight_line (m2p : ℝ → ℝ) (hm : Exact m2p) (hnn : ∀ x, 0 ≤ m2p x)
+    (w : Word) (d α β rho : ℝ) (P : Path ℝ) (hb : NoClamp w d α β) (hd : 0 ≤ d) (hrho : 0 < rho)
+    (h : solve m2p w d α β = some P) : d ≤ P.len ∧ rho * d ≤ rho * P.len := by
+  have h1 := solve_len_ge m2p hm hnn w d α β P hb hd h
+  exact ⟨h1, mul_le_mul_of_nonneg_left h1 hrho.le⟩
+
+/-- [EX] the same for the path the exhaustive search returns, with the fudge-free normalisation. -/
+theorem exhaustive_length_ge_straight_line (d α β : ℝ) (P : Path ℝ) (hd : 0 ≤ d)
+    (hb1 : ¬ ClampBand (tmpRSL d α β)) (hb2 : ¬ ClampBand (tmpLSR d α β))
+    (h : exhaustiveCore mod2piExact d α β = some P) : d ≤ P.len := by
+  obtain ⟨w, hw⟩ := exhaustiveCore_mem (mod2piExact : ℝ → ℝ) d α β
+  rw [hw] at h
+  have hb : NoClamp w d α β := by cases w <;> first | exact hb1 | exact hb2 | trivial
+  exact solve_len_ge mod2piExact mod2piExact_exact mod2piExact_nonneg w d α β P hb hd h
+
+-- the exhaustive search always returns a path over ℝ (LSL always has one, and `better` never drops it)
+example : tmpRSL 4 0 0 = 16 ∧ tmpLSR 4 0 0 = 16 := by
+  unfold tmpRSL tmpLSR; simp only [Real.cos_zero, Real.sin_zero]; constructor <;> norm_num
+
+/-- [EX] **`interpolate` ends at the goal**: with the whole length as budget (`t = 1`) the interpolation
+loop drives the whole word, so in the normalised frame (start `(x₀,y₀,α)`, radius `rho`) it ends at
+`(x₀ + rho·d, y₀)` with yaw `β` modulo 2π (then wrapped by `enforceBounds`). -/
+theorem interp_at_one_reaches (m2p : ℝ → ℝ) (hm : Exact m2p) (hnn : ∀ x, 0 ≤ m2p x) (w : Word)
+    (d α β rho x0 y0 : ℝ) (P : Path ℝ) (hb : NoClamp w d α β) (h : solve m2p w d α β = some P) :
+    ∃ k : ℤ, interpPath rho ⟨x0, y0, α⟩ P 1 = ⟨d * rho + x0, 0 * rho + y0, so2Enforce (β + k * (2 * Real.pi))⟩ := by
+  obtain ⟨_, hrev, hx, hy, k, hth⟩ := Dubins.solve_reaches m2p hm w d α β P hb h
+  obtain ⟨h1, h2, h3⟩ := Dubins.word_lengths_nonneg m2p hnn w d α β P h
+  refine ⟨k, ?_⟩
+  unfold interpPath
+  simp only [hrev, Bool.false_eq_true, if_false, DubinsR.ofNat_zero]
+  rw [one_mul, ← segList_sum, integ_total stepFwd stepFwd_zero _ (segList_nonneg P h1 h2 h3), hx, hy, hth]
+
+/-- [EX] **The reversed branch retraces the forward curve.**  `interpolate` drives a path marked
+`reverse_` through the reversed segment list with `stepRev`; started at the end pose of the forward
+curve this returns exactly to the forward curve's start (so a path computed from `to` to `from` and
+driven reversed from `from` ends at `to`). -/
+theorem reverse_retraces (P : Path ℝ) (hrev : P.rev = false) (Q : Pose ℝ) :
+    integFull stepRev (Path.segList { P with rev := true }) (integFull stepFwd P.segList Q) = Q := by
+  rw [segList_rev P hrev]; exact integFull_rev_retraces _ Q
+
+example : Path.segList ({ (⟨.LSR, 1, 2, 3, false⟩ : Path ℝ) with rev := true }) = [(.R, 3), (.S, 2), (.L, 1)] := by
+  simp [Path.segList, Word.segs]
+
+/-- [EX] over ℝ the exhaustive search never returns the default (`DBL_MAX`) path: LSL always has a
+solution (its `tmp` is a sum of two squares) and `better` only replaces it by a shorter one. -/
+theorem exhaustive_isSome (m2p : ℝ → ℝ) (d α β : ℝ) : ∃ P, exhaustiveCore m2p d α β = some P := by
+  obtain ⟨P0, h0⟩ := dubinsLSL_isSome m2p d α β
+  have h := (exhaustive_is_min_real m2p d α β).1 .LSL
+  rw [solve_LSL, h0] at h
+  cases hr : exhaustiveCore m2p d α β with
+  | some P => exact ⟨P, rfl⟩
+  | none => rw [hr] at h; cases h
 
 end OmplModel.Props.C14
